@@ -1,0 +1,5 @@
+//go:build !verif
+
+package runtime
+
+func verifEvent(_ string, _ Location, _ bool) {}
